@@ -278,7 +278,8 @@ def boolField (k : String) (kvs : KVs) : Option Bool :=
 
 def boolRejects (k : String) (kvs : KVs) : Bool :=
   match lookup k kvs with
-  | some (.str s) => isAscii s && (toBoolean s).isNone
+  | some (.str s) => !isAscii s || (toBoolean s).isNone   -- a non-ASCII text is never a boolean: `strings.ToLower`
+      -- sends a non-ASCII rune to ASCII only for U+212A (k) and U+0130 (i), and no accepted word has a k or an i
   | some (.int _) => true
   | some (.float _) => true
   | some (.seq _) => true
